@@ -8,7 +8,9 @@ pub(crate) fn div_rem_unshifted_in_place(
 ) -> Word
 /*@
     requires
-        rhs@.len() <= old(lhs)@.len() <= usize::MAX, div_prepared(rhs@, fast_div_rhs_top), shift < WORD_BITS,
+        rhs@.len() <= old(lhs)@.len() <= usize::MAX, div_prepared(rhs@, fast_div_rhs_top),
+        // `2 * n` is computed in usize by the divide-and-conquer branch: true of every real slice of words
+        2 * rhs@.len() <= usize::MAX, shift < WORD_BITS,
     ensures
         final(lhs)@.len() == old(lhs)@.len(),
         // (a << shift) == q*b + r with q = [quotient words in lhs[n..], ret], r = lhs[..n] < b
